@@ -168,6 +168,42 @@ func c08(c *ctx) {
 		g.Number()
 		cases = append(cases, &c08case{id: len(cases), g: g, kind: fmt.Sprintf("many-rules-%d", nr), opts: gram.PrintOpts{State: " N int", ActionCode: func(id int) string { return "p.N++" }}})
 	}
+	// a language feature that occurs ONLY in a rule unreachable from the first rule (peg warns and still writes the
+	// parser): what the template declares for that feature (matchDot, text, Execute, the pretty-printer's imports)
+	// has to be decided from the same rules the emitter emits code for
+	features := []struct {
+		name string
+		e    *gram.Expr
+		base *gram.Expr
+	}{
+		{"dot", gram.Seq(gram.Lit("u"), gram.Dot()), gram.Lit("a")},
+		{"notdot", gram.Un(gram.KNot, gram.Dot()), gram.Lit("a")},
+		{"action", gram.Seq(gram.Lit("u"), gram.Act()), gram.Lit("a")},
+		{"capture", gram.Un(gram.KCapture, gram.Lit("u")), gram.Lit("a")},
+		{"captureaction", gram.Seq(gram.Un(gram.KCapture, gram.Lit("u")), gram.Act()), gram.Lit("a")},
+		{"string", gram.Lit("uvw"), gram.Lit("a")},
+		{"cistring", gram.LitCI("uvw"), gram.Lit("a")},
+		{"char", gram.Lit("u"), gram.Rng('a', 'c')},
+		{"cichar", gram.LitCI("u"), gram.Rng('a', 'c')},
+		{"range", gram.Rng('u', 'w'), gram.Lit("a")},
+		{"class", gram.Cls(gram.Item{Lo: 'u', Hi: 'u'}, gram.Item{Lo: 'w', Hi: 'y'}), gram.Lit("a")},
+		{"negclass", &gram.Expr{K: gram.KClass, Neg: true, Items: []gram.Item{{Lo: 'u', Hi: 'w'}}}, gram.Lit("a")},
+		{"predicate", gram.Seq(gram.Pred(gram.PTrue, 0), gram.Lit("u")), gram.Lit("a")},
+		{"state", gram.Seq(gram.State(), gram.Lit("u")), gram.Lit("a")},
+		{"repeat", gram.Seq(gram.Un(gram.KStar, gram.Lit("u")), gram.Un(gram.KPlus, gram.Lit("v")), gram.Un(gram.KQuery, gram.Lit("w"))), gram.Lit("a")},
+		{"choice", gram.Alt(gram.Lit("u"), gram.Lit("v"), gram.Lit("w")), gram.Lit("a")},
+	}
+	for _, ft := range features {
+		g := &gram.Grammar{Rules: []*gram.Rule{
+			{Name: "R0", E: gram.Seq(gram.Ref("M"), gram.Un(gram.KQuery, gram.Ref("M")))},
+			{Name: "M", E: ft.base},
+			{Name: "Unused", E: ft.e},
+		}}
+		g.Number()
+		cases = append(cases, &c08case{id: len(cases), g: g, kind: "warned-feature-only-in-unused-rule-" + ft.name,
+			opts: gram.PrintOpts{State: " N int", ActionCode: func(id int) string { return "p.N += len(text)" }, StateCode: func(id int) string { return "p.N++" }}})
+		c.run.Count("grammars_with_a_feature_only_in_an_unused_rule", 1)
+	}
 	if c.replay != "" {
 		// --replay: the witness' grammar text verbatim, under all eight option sets
 		text, ok := witnessString(c.replay, "grammar")
@@ -236,7 +272,7 @@ func c08(c *ctx) {
 				switch {
 				case j.GenExit != 0 || len(j.GenOut) == 0:
 					c.run.Violate("generate:"+id, fmt.Sprintf("peg %v failed on an accepted grammar (exit %d): %s", v.opts, j.GenExit, firstLine(strings.TrimSpace(j.GenStderr))), w(nil))
-				case strings.TrimSpace(j.GenStderr) != "" && cs.kind != "warned":
+				case strings.TrimSpace(j.GenStderr) != "" && !strings.HasPrefix(cs.kind, "warned"):
 					c.run.Violate("stderr:"+id, fmt.Sprintf("peg %v printed diagnostics for a clean grammar: %s", v.opts, firstLine(j.GenStderr)), w(nil))
 				case !j.Compiled:
 					c.run.Violate("compile:"+id, fmt.Sprintf("the file generated with %v does not compile: %s", v.opts, firstLine(strings.TrimSpace(j.CompErr))), w(map[string]any{"go_build": j.CompErr}))
